@@ -51,16 +51,25 @@ LEVEL_NOTE = ("Trusted: kernel, extraction, harness; Go runtime sampled. Outside
 
 def plan(tier, seed):
     if tier == "quick":
-        return [("C06", seed, 200, []), ("C06order", seed, 80, []), ("C06imp", seed, 110, [])]
+        return [("C06", seed, 200, []), ("C06order", seed, 80, []), ("C06imp", seed, 110, []), ("C06reg", seed, 300, [])]
     return [("C06", seed + k, 1500, []) for k in range(4)] + [("C06order", seed + k, 600, []) for k in range(4)] + \
-        [("C06imp", seed + k, 1100, []) for k in range(4)]
+        [("C06imp", seed + k, 1100, []) for k in range(4)] + [("C06reg", seed + k, 2500, []) for k in range(4)]
 
 
 def search_plan(seed):
-    return [("C06", seed + 100, 400, []), ("C06order", seed + 100, 200, []), ("C06imp", seed + 100, 330, [])]
+    return [("C06", seed + 100, 400, []), ("C06order", seed + 100, 200, []), ("C06imp", seed + 100, 330, []), ("C06reg", seed + 100, 600, [])]
 
 
 def compare(c):
+    if c.op == "C06.reg":
+        # observed "<runs verdict> | <OK stdout | ERR | PANIC ..>": the binary's first run against Register.register_text;
+        # for a panic the classes are compared (model "PANIC", observed "PANIC <runtime message>")
+        parts = c.observed.split(" | ", 1)
+        if len(parts) != 2:
+            return False
+        if c.model == "PANIC":
+            return parts[1].startswith("PANIC")
+        return c.model == parts[1]
     if c.op == "C06.order":
         # observed "<runs verdict> | <OK stdout | ERR | PANIC ..>": the binary's print against build_sorted + print_journal
         parts = c.observed.split(" | ", 1)
